@@ -64,14 +64,20 @@ Proof.
   eapply Permutation_trans; [apply H1|]. apply Permutation_sym. apply H2.
 Qed.
 
+Theorem pp_from_order_independent fl m ordA1 ordA2 ordV1 ordV2 lets0 msgs0 :
+  f_sorted_apps fl = true -> f_sorted_views fl = true ->
+  map_order ordA1 -> map_order ordA2 -> vmap_order ordV1 -> vmap_order ordV2 ->
+  pp_from fl ordA1 ordV1 lets0 msgs0 m = pp_from fl ordA2 ordV2 lets0 msgs0 m.
+Proof.
+  intros Ha Hv HA1 HA2 HV1 HV2. unfold pp_from. rewrite Ha. rewrite (app_order_sorted ordA1 ordA2 m HA1 HA2).
+  apply fold_left_ext. apply app_step_ext. rewrite Hv. apply view_order_sorted; assumption.
+Qed.
+
 Theorem pp_order_independent fl m ordA1 ordA2 ordV1 ordV2 lets0 :
   f_sorted_apps fl = true -> f_sorted_views fl = true ->
   map_order ordA1 -> map_order ordA2 -> vmap_order ordV1 -> vmap_order ordV2 ->
   pp fl ordA1 ordV1 lets0 m = pp fl ordA2 ordV2 lets0 m.
-Proof.
-  intros Ha Hv HA1 HA2 HV1 HV2. unfold pp. rewrite Ha. rewrite (app_order_sorted ordA1 ordA2 m HA1 HA2).
-  apply fold_left_ext. apply app_step_ext. rewrite Hv. apply view_order_sorted; assumption.
-Qed.
+Proof. intros. unfold pp. apply pp_from_order_independent; assumption. Qed.
 
 (* ---------- refutations ---------- *)
 (* one application (1) with two views (1, 2); each assigns one untyped nested transform (payloads 11, 12) *)
@@ -79,7 +85,7 @@ Definition two_views : imodule :=
   [ {| i_name := 1; i_mem := [];
        i_views := [ {| v_name := 1; v_id := 1; v_abs := false; v_stmts := [(None, [11])] |};
                     {| v_name := 2; v_id := 2; v_abs := false; v_stmts := [(None, [12])] |} ];
-       i_mix := [] |} ].
+       i_mix := []; i_refs := [] |} ].
 
 Definition vid (n:N) (l:list N) : list N := l.
 Definition vrev (n:N) (l:list N) : list N := rev l.
@@ -139,7 +145,7 @@ Definition quiet (m:imodule) : Prop := forall a, In a m -> Forall no_stmts (i_vi
 Lemma view_step_quiet pa app a v : no_stmts v -> c_cnt a = 0 -> view_step pa app a v = a.
 Proof.
   intros Hq Hc. unfold view_step. destruct (v_abs v); [reflexivity|]. rewrite Hq. cbn [fold_left].
-  destruct a as [c me ty le]. cbn [c_cnt c_mem c_typed c_lets] in *. subst c. destruct pa; reflexivity.
+  destruct a as [c me ty le ms]. cbn [c_cnt c_mem c_typed c_lets c_msgs] in *. subst c. destruct pa; reflexivity.
 Qed.
 
 Lemma find_view_in l n v : find_view l n = Some v -> In v l.
@@ -205,15 +211,15 @@ Qed.
 Theorem pp_unsorted_views_partial fl ordA ordV1 ordV2 lets0 m : quiet m ->
   pp fl ordA ordV1 lets0 m = pp fl ordA ordV2 lets0 m.
 Proof.
-  intros Hq. unfold pp.
-  set (st := {| p_mod := m; p_typed := []; p_lets := lets0 |}).
+  intros Hq. unfold pp, pp_from.
+  set (st := {| p_mod := m; p_typed := []; p_lets := lets0; p_msgs := [] |}).
   assert (Hs : quiet (p_mod st)) by exact Hq. clearbody st. clear Hq.
   revert st Hs. induction (app_order (f_sorted_apps fl) ordA m) as [|n order IH]; intros st Hs; cbn [fold_left]; [reflexivity|].
   destruct (app_step_quiet fl ordV1 ordV2 st n Hs) as [He Hq']. rewrite <- He. apply IH. exact Hq'.
 Qed.
 
 (* ---------- on modules without views this model is Conc/Post.v ---------- *)
-Definition embed_app (a:sapp) : iapp := {| i_name := a_name a; i_mem := a_mem a; i_views := []; i_mix := a_mix a |}.
+Definition embed_app (a:sapp) : iapp := {| i_name := a_name a; i_mem := a_mem a; i_views := []; i_mix := a_mix a; i_refs := [] |}.
 
 Lemma ilookup_embed m n : ilookup (embed m) n = option_map embed_app (lookup_app m n).
 Proof.
@@ -244,27 +250,43 @@ Proof.
   - rewrite He. f_equal. exact IH.
 Qed.
 
-Lemma app_step_embed fl ordV m ty le n :
-  app_step fl ordV {| p_mod := embed m; p_typed := ty; p_lets := le |} n =
-  {| p_mod := embed (post_app m n); p_typed := ty; p_lets := le |}.
+Lemma update_app_idem m a : update_app (update_app m a) a = update_app m a.
 Proof.
-  unfold app_step, post_app. cbn [p_mod p_typed p_lets]. rewrite ilookup_embed.
+  induction m as [|b m IH]; cbn [update_app]; [reflexivity|].
+  destruct (N.eqb (a_name b) (a_name a)) eqn:He; cbn [update_app].
+  - rewrite N.eqb_refl. reflexivity.
+  - rewrite He. f_equal. exact IH.
+Qed.
+
+Lemma field_refs_embed m c : field_refs (embed m) c = [].
+Proof.
+  unfold field_refs. induction (i_mem c) as [|e l IH]; cbn [flat_map]; [reflexivity|].
+  rewrite IH. rewrite ilookup_embed. destruct (lookup_app m (snd e)); reflexivity.
+Qed.
+
+Lemma app_step_embed fl ordV m ty le ms lo n :
+  app_step fl ordV {| p_mod := embed m; p_typed := ty; p_lets := le; p_msgs := ms; p_local := lo |} n =
+  {| p_mod := embed (post_app m n); p_typed := ty; p_lets := le; p_msgs := ms; p_local := lo |}.
+Proof.
+  unfold app_step, post_app. cbn [p_mod p_typed p_lets p_msgs p_local]. rewrite ilookup_embed.
   destruct (lookup_app m n) as [a|]; cbn [option_map]; [|reflexivity].
-  change (embed_app a) with (embed_app a). cbn [embed_app i_mix]. change {| i_name := a_name a; i_mem := a_mem a; i_views := []; i_mix := a_mix a |} with (embed_app a).
+  cbn [embed_app i_mix i_refs filter fold_left].
+  change {| i_name := a_name a; i_mem := a_mem a; i_views := []; i_mix := a_mix a; i_refs := [] |} with (embed_app a).
   rewrite imix_fold_embed. set (a1 := fold_left (mix_one m) (a_mix a) a).
-  unfold infer_app. cbn [p_mod p_typed p_lets embed_app i_views i_name i_mem i_mix map].
+  rewrite iupdate_embed. rewrite field_refs_embed. cbn [fold_left].
+  unfold infer_app. cbn [p_mod p_typed p_lets p_msgs p_local embed_app i_views i_name i_mem i_mix i_refs map].
   assert (Hf : forall order acc0, fold_left (fun (acc1:acc) (n0:N) => match find_view [] n0 with Some v => view_step (f_per_app fl) (a_name a1) acc1 v | None => acc1 end) order acc0 = acc0).
   { induction order as [|x order IH]; intros acc0; cbn [fold_left find_view]; [reflexivity|apply IH]. }
-  rewrite Hf. cbn [c_mem c_typed c_lets].
-  change {| i_name := a_name a1; i_mem := a_mem a1; i_views := []; i_mix := a_mix a1 |} with (embed_app a1).
-  rewrite iupdate_idem. rewrite iupdate_embed. reflexivity.
+  rewrite Hf. cbn [c_mem c_typed c_lets c_msgs].
+  change {| i_name := a_name a1; i_mem := a_mem a1; i_views := []; i_mix := a_mix a1; i_refs := [] |} with (embed_app a1).
+  rewrite iupdate_embed. rewrite update_app_idem. reflexivity.
 Qed.
 
 Theorem embed_post fl ordA ordV lets0 m :
   pp fl ordA ordV lets0 (embed m) =
-  {| p_mod := embed (post_process (f_sorted_apps fl) ordA m); p_typed := []; p_lets := lets0 |}.
+  {| p_mod := embed (post_process (f_sorted_apps fl) ordA m); p_typed := []; p_lets := lets0; p_msgs := []; p_local := [] |}.
 Proof.
-  unfold pp, post_process, post.
+  unfold pp, pp_from, post_process, post.
   assert (Ho : app_order (f_sorted_apps fl) ordA (embed m) = post_order (f_sorted_apps fl) ordA m).
   { unfold app_order, post_order, inames, names, embed. rewrite map_map. cbn [i_name]. reflexivity. }
   rewrite Ho. clear Ho. generalize (post_order (f_sorted_apps fl) ordA m) as order. generalize (@nil (N * (N * N))) as ty.
@@ -286,7 +308,7 @@ Proof. rewrite embed_post. cbn [p_mod]. apply project_embed. Qed.
 (* application 1, view 1: `let x = <untyped nested transform 11>` (scope key 5) *)
 Definition one_let : imodule :=
   [ {| i_name := 1; i_mem := [];
-       i_views := [ {| v_name := 1; v_id := 1; v_abs := false; v_stmts := [(Some 5, [11])] |} ]; i_mix := [] |} ].
+       i_views := [ {| v_name := 1; v_id := 1; v_abs := false; v_stmts := [(Some 5, [11])] |} ]; i_mix := []; i_refs := [] |} ].
 
 Example one_let_fresh : forall fl, map i_mem (p_mod (compile_fresh fl (fun l => l) vid one_let)) = [[(1000, 11)]].
 Proof. intros [[] [] []]; reflexivity. Qed.
@@ -319,7 +341,7 @@ Proof.
   - unfold same_but_lets. cbn [c_cnt c_mem c_typed]. rewrite Hc, Hm. repeat split; reflexivity.
 Qed.
 
-Lemma stmt_step_same app s a b : plain_let s -> same_but_lets a b -> same_but_lets (stmt_step app a s) (stmt_step app b s).
+Lemma stmt_step_same app vn s a b : plain_let s -> same_but_lets a b -> same_but_lets (stmt_step app vn a s) (stmt_step app vn b s).
 Proof.
   intros Hp H. destruct s as [[k|] ps]; cbn [stmt_step].
   - assert (Hps : ps = []) by (apply Hp; cbn; discriminate). subst ps. cbn [fold_left].
@@ -328,8 +350,8 @@ Proof.
   - apply anon_fold_same. exact H.
 Qed.
 
-Lemma stmts_fold_same app ss : Forall plain_let ss -> forall a b, same_but_lets a b ->
-  same_but_lets (fold_left (stmt_step app) ss a) (fold_left (stmt_step app) ss b).
+Lemma stmts_fold_same app vn ss : Forall plain_let ss -> forall a b, same_but_lets a b ->
+  same_but_lets (fold_left (stmt_step app vn) ss a) (fold_left (stmt_step app vn) ss b).
 Proof.
   induction 1 as [|s ss Hs _ IH]; intros a b H; cbn [fold_left]; [exact H|]. apply IH. apply stmt_step_same; assumption.
 Qed.
@@ -378,9 +400,9 @@ Proof.
   assert (Ha : Forall plain_view (i_views a)) by (apply Hp; eapply ilookup_in; exact Hl).
   pose proof (imix_fold_plain (p_mod s) (i_mix a) Hp a Ha) as H1.
   set (a1 := fold_left (imix_one (p_mod s)) (i_mix a) a) in *.
-  unfold infer_app. cbn [p_mod p_typed p_lets].
-  match goal with |- same_state {| p_mod := iupdate _ {| i_name := _; i_mem := c_mem ?r1; i_views := _; i_mix := _ |}; p_typed := _; p_lets := _ |}
-                              {| p_mod := iupdate _ {| i_name := _; i_mem := c_mem ?r2; i_views := _; i_mix := _ |}; p_typed := _; p_lets := _ |} /\ _ =>
+  unfold infer_app. cbn [p_mod p_typed p_lets p_msgs].
+  match goal with |- same_state {| p_mod := iupdate _ {| i_name := _; i_mem := c_mem ?r1; i_views := _; i_mix := _ |}; p_typed := _; p_lets := _; p_msgs := _ |}
+                              {| p_mod := iupdate _ {| i_name := _; i_mem := c_mem ?r2; i_views := _; i_mix := _ |}; p_typed := _; p_lets := _; p_msgs := _ |} /\ _ =>
     assert (Hr : same_but_lets r1 r2) end.
   { apply infer_fold_same; [exact H1|]. unfold same_but_lets. cbn [c_cnt c_mem c_typed]. rewrite Ht. repeat split; reflexivity. }
   destruct Hr as [_ [Hrm Hrt]].
@@ -389,17 +411,22 @@ Proof.
   - apply iupdate_plain; [apply iupdate_plain; assumption|]. cbn [i_views]. exact H1.
 Qed.
 
-Theorem parser_reuse_partial fl ordA ordV lets1 lets2 m : plain m ->
-  p_mod (pp fl ordA ordV lets1 m) = p_mod (pp fl ordA ordV lets2 m) /\
-  p_typed (pp fl ordA ordV lets1 m) = p_typed (pp fl ordA ordV lets2 m).
+Theorem parser_state_irrelevant_partial fl ordA ordV lets1 msgs1 lets2 msgs2 m : plain m ->
+  p_mod (pp_from fl ordA ordV lets1 msgs1 m) = p_mod (pp_from fl ordA ordV lets2 msgs2 m) /\
+  p_typed (pp_from fl ordA ordV lets1 msgs1 m) = p_typed (pp_from fl ordA ordV lets2 msgs2 m).
 Proof.
-  intros Hp. unfold pp.
-  set (s := {| p_mod := m; p_typed := []; p_lets := lets1 |}). set (t := {| p_mod := m; p_typed := []; p_lets := lets2 |}).
+  intros Hp. unfold pp_from.
+  set (s := {| p_mod := m; p_typed := []; p_lets := lets1; p_msgs := msgs1 |}). set (t := {| p_mod := m; p_typed := []; p_lets := lets2; p_msgs := msgs2 |}).
   assert (Hs : plain (p_mod s)) by exact Hp. assert (Hst : same_state s t) by (split; reflexivity).
   clearbody s t. clear Hp.
   revert s t Hs Hst. induction (app_order (f_sorted_apps fl) ordA m) as [|n order IH]; intros s t Hs Hst; cbn [fold_left]; [exact Hst|].
   destruct (app_step_same fl ordV s t n Hs Hst) as [H1 H2]. apply IH; assumption.
 Qed.
+
+Theorem parser_reuse_partial fl ordA ordV lets1 lets2 m : plain m ->
+  p_mod (pp fl ordA ordV lets1 m) = p_mod (pp fl ordA ordV lets2 m) /\
+  p_typed (pp fl ordA ordV lets1 m) = p_typed (pp fl ordA ordV lets2 m).
+Proof. intros Hp. unfold pp. apply parser_state_irrelevant_partial. exact Hp. Qed.
 
 Corollary parser_reuse_harmless_without_let_transforms fl ordA ordV m : plain m ->
   p_mod (compile_again fl ordA ordV m) = p_mod (compile_fresh fl ordA ordV m).
@@ -408,7 +435,7 @@ Proof. intros Hp. unfold compile_again, compile_fresh. apply (parser_reuse_parti
 (* the hypothesis is met by a module that does have views, assignments with untyped transforms and lets *)
 Definition plain_demo : imodule :=
   [ {| i_name := 1; i_mem := [(3, 1)];
-       i_views := [ {| v_name := 1; v_id := 1; v_abs := false; v_stmts := [(None, [11; 12]); (Some 5, [])] |} ]; i_mix := [] |} ].
+       i_views := [ {| v_name := 1; v_id := 1; v_abs := false; v_stmts := [(None, [11; 12]); (Some 5, [])] |} ]; i_mix := []; i_refs := [] |} ].
 Example plain_demo_is_plain : plain plain_demo.
 Proof.
   intros a [<-|[]]. cbn [i_views]. repeat constructor; cbn; try discriminate; intros H; try reflexivity; exfalso; apply H; reflexivity.
@@ -425,3 +452,333 @@ Proof. reflexivity. Qed.
 Example per_app_counter_separates :
   map i_mem (p_mod (pp {| f_sorted_apps := true; f_sorted_views := true; f_per_app := true |} (fun l => l) vrev [] two_views)) = [[(1000, 11); (1001, 12)]].
 Proof. reflexivity. Qed.
+
+(* ====================================================================================================================
+   Second pass: Parser.Parse makes the accumulators fresh (fixes/C07-5) - the life of one parse.Parser value.
+
+   reused_parser_is_fresh            resets: calls made one after another - on any parser, whatever it compiled before - each
+                                     return what a parser of its own returns and leave in the parser (LetTypes keys, Messages:
+                                     what GetLets / GetMessages show) what a fresh parser would hold                     (full)
+   parser_reuse_iff_reset            a call is independent of the parser's past  <->  Parse resets
+   parser_reuse_without_reset_refuted   the source before the repair: second compilation of the same text differs   (refuted)
+   shared_parser_interleaved_refuted calls of several goroutines on ONE parser whose reset and post-processing interleave
+                                     (Reset 1, Reset 2, Post 1, Post 2): the second sees the let keys of the first - with the
+                                     reset too                                                                       (refuted)
+   shared_parser_partial             ... harmless under every schedule, with or without reset, when no `let` has an untyped
+                                     nested transform under it                                                       (partial)
+   run_sched_order_independent       both loops sorted: a parser's whole life does not depend on map iteration orders  (full)
+   ==================================================================================================================== *)
+Definition posts (sched:list pev) : list N := flat_map (fun e => match e with EPost g => [g] | EReset _ => [] end) sched.
+
+Lemma sequential_ind2 (P:list pev -> Prop) :
+  P [] -> (forall g rest, sequential rest = true -> P rest -> P (EReset g :: EPost g :: rest)) ->
+  forall s, sequential s = true -> P s.
+Proof.
+  intros H0 H2. fix IH 1. intros [|[g|g] [|[g'|g'] rest]]; cbn [sequential]; try discriminate.
+  - intros _. exact H0.
+  - intros H. apply andb_prop in H. destruct H as [Hg Hr]. apply N.eqb_eq in Hg. subst g'.
+    apply H2; [exact Hr|apply IH; exact Hr].
+Qed.
+
+Lemma last_cons_default (l:list N) : forall x d, last (x :: l) d = last l x.
+Proof.
+  induction l as [|y l IH]; intros x d; [reflexivity|].
+  change (last (x :: y :: l) d) with (last (y :: l) d). rewrite IH. symmetry. apply IH.
+Qed.
+
+Lemma parse_resets_fresh fl ordA ordV ps m : parse true fl ordA ordV ps m = compile_fresh fl ordA ordV m.
+Proof. reflexivity. Qed.
+
+Lemma sequential_fold fl ordA ordV mods sched : sequential sched = true -> forall ps res0,
+  fold_left (ev_step true fl ordA ordV mods) sched (ps, res0) =
+  (match posts sched with
+   | [] => ps
+   | g :: gs => parser_after (compile_fresh fl ordA ordV (mods (last gs g)))
+   end,
+   res0 ++ map (fun g => (g, compile_fresh fl ordA ordV (mods g))) (posts sched)).
+Proof.
+  intros Hs. pattern sched. revert sched Hs. apply sequential_ind2.
+  - intros ps res0. cbn [fold_left posts flat_map map]. rewrite app_nil_r. reflexivity.
+  - intros g rest Hr IH ps res0. cbn [fold_left ev_step fst snd]. rewrite IH.
+    change (posts (EReset g :: EPost g :: rest)) with (g :: posts rest). cbn [map].
+    change (pp_from fl ordA ordV (ps_lets new_parser) (ps_msgs new_parser) (mods g)) with (compile_fresh fl ordA ordV (mods g)).
+    rewrite <- app_assoc. cbn [app]. f_equal.
+    destruct (posts rest) as [|g1 gs]; [reflexivity|]. rewrite last_cons_default. reflexivity.
+Qed.
+
+Theorem reused_parser_is_fresh fl ordA ordV mods ps sched : sequential sched = true ->
+  snd (run_sched true fl ordA ordV mods ps sched) = map (fun g => (g, compile_fresh fl ordA ordV (mods g))) (posts sched) /\
+  fst (run_sched true fl ordA ordV mods ps sched) =
+    match posts sched with [] => ps | g :: gs => parser_after (compile_fresh fl ordA ordV (mods (last gs g))) end.
+Proof. intros Hs. unfold run_sched. rewrite (sequential_fold fl ordA ordV mods sched Hs). cbn [fst snd app]. split; reflexivity. Qed.
+
+(* the form for one source compiled again and again, and for a list of sources *)
+Lemma seq_sched_sequential gs : sequential (seq_sched gs) = true.
+Proof. induction gs as [|g gs IH]; [reflexivity|]. cbn [seq_sched flat_map app sequential]. rewrite N.eqb_refl. exact IH. Qed.
+Lemma posts_seq_sched gs : posts (seq_sched gs) = gs.
+Proof.
+  induction gs as [|g gs IH]; [reflexivity|]. change (seq_sched (g :: gs)) with (EReset g :: EPost g :: seq_sched gs).
+  change (posts (EReset g :: EPost g :: seq_sched gs)) with (g :: posts (seq_sched gs)). f_equal. exact IH.
+Qed.
+
+Corollary reused_parser_chain fl ordA ordV mods ps gs :
+  snd (run_sched true fl ordA ordV mods ps (seq_sched gs)) = map (fun g => (g, compile_fresh fl ordA ordV (mods g))) gs.
+Proof.
+  pose proof (seq_sched_sequential gs) as Hs. pose proof (posts_seq_sched gs) as Hp.
+  rewrite (proj1 (reused_parser_is_fresh fl ordA ordV mods ps _ Hs)). rewrite Hp. reflexivity.
+Qed.
+
+(* hypotheses met by a non-trivial input: three calls, the second on the module whose second compilation went wrong *)
+Example sequential_demo : sequential (seq_sched [1; 2; 1]) = true /\ posts (seq_sched [1; 2; 1]) = [1; 2; 1].
+Proof. split; reflexivity. Qed.
+
+Theorem parser_reuse_without_reset_refuted : forall fl, exists m ordA ordV, map_order ordA /\ vmap_order ordV /\
+  p_mod (parse false fl ordA ordV (parser_after (compile_fresh fl ordA ordV m)) m) <> p_mod (compile_fresh fl ordA ordV m).
+Proof.
+  intros fl. exists one_let, (fun l => l), vid. split; [exact map_order_id|]. split; [exact vmap_order_id|].
+  destruct fl as [[] [] []]; vm_compute; discriminate.
+Qed.
+
+(* tests by vm_compute: what the second compilation leaves in the parser without the reset (one message, the key once) and
+   with it *)
+Example one_let_again_state : forall fl,
+  parser_after (parse false fl (fun l => l) vid (parser_after (compile_fresh fl (fun l => l) vid one_let)) one_let)
+  = {| ps_lets := [5]; ps_msgs := [(1, 5)] |}.
+Proof. intros [[] [] []]; reflexivity. Qed.
+Example one_let_again_state_reset : forall fl,
+  parser_after (parse true fl (fun l => l) vid (parser_after (compile_fresh fl (fun l => l) vid one_let)) one_let)
+  = {| ps_lets := [5]; ps_msgs := [] |}.
+Proof. intros [[] [] []]; reflexivity. Qed.
+
+Theorem parser_reuse_iff_reset resets :
+  (forall fl ordA ordV ps m, map_order ordA -> vmap_order ordV ->
+     p_mod (parse resets fl ordA ordV ps m) = p_mod (compile_fresh fl ordA ordV m)) <-> resets = true.
+Proof.
+  split.
+  - intros H. destruct resets; [reflexivity|]. exfalso.
+    set (fl := {| f_sorted_apps := true; f_sorted_views := true; f_per_app := true |}).
+    destruct (parser_reuse_without_reset_refuted fl) as [m [oA [oV [HA [HV Hne]]]]]. apply Hne. apply H; assumption.
+  - intros -> fl ordA ordV ps m _ _. reflexivity.
+Qed.
+
+(* ---------- one parser used by several goroutines at once ---------- *)
+(* every call resets before it post-processes *)
+Fixpoint wf_sched (open:list N) (sched:list pev) : bool :=
+  match sched with
+  | [] => true
+  | EReset g :: rest => wf_sched (g :: open) rest
+  | EPost g :: rest => mem_N g open && wf_sched open rest
+  end.
+
+Definition interleaved : list pev := [EReset 1; EReset 2; EPost 1; EPost 2].
+
+Theorem shared_parser_interleaved_refuted : forall resets fl, exists mods sched ordA ordV g st,
+  map_order ordA /\ vmap_order ordV /\ wf_sched [] sched = true /\
+  In (g, st) (snd (run_sched resets fl ordA ordV mods new_parser sched)) /\
+  p_mod st <> p_mod (compile_fresh fl ordA ordV (mods g)).
+Proof.
+  intros resets fl. exists (fun _ => one_let), interleaved, (fun l => l), vid, 2.
+  eexists. split; [exact map_order_id|]. split; [exact vmap_order_id|]. split; [reflexivity|].
+  split; [right; left; reflexivity|]. destruct resets, fl as [[] [] []]; vm_compute; discriminate.
+Qed.
+
+Theorem shared_parser_partial resets fl ordA ordV mods ps sched : (forall g, plain (mods g)) ->
+  Forall (fun r => p_mod (snd r) = p_mod (compile_fresh fl ordA ordV (mods (fst r))) /\
+                   p_typed (snd r) = p_typed (compile_fresh fl ordA ordV (mods (fst r))))
+         (snd (run_sched resets fl ordA ordV mods ps sched)).
+Proof.
+  intros Hp. unfold run_sched.
+  assert (H0 : Forall (fun r => p_mod (snd r) = p_mod (compile_fresh fl ordA ordV (mods (fst r))) /\
+                                p_typed (snd r) = p_typed (compile_fresh fl ordA ordV (mods (fst r)))) (@nil (N * pstate))) by constructor.
+  revert H0. generalize (@nil (N * pstate)) as res0. revert ps.
+  induction sched as [|e sched IH]; intros ps res0 H0; cbn [fold_left]; [exact H0|].
+  destruct e as [g|g]; cbn [ev_step fst snd].
+  - apply IH. exact H0.
+  - apply IH. apply Forall_app. split; [exact H0|]. constructor; [|constructor]. cbn [fst snd].
+    unfold compile_fresh, pp. apply parser_state_irrelevant_partial. apply Hp.
+Qed.
+
+Example shared_partial_nontrivial : (forall g:N, plain ((fun _ => plain_demo) g)) /\ wf_sched [] interleaved = true /\ sequential interleaved = false.
+Proof. split; [intros _; exact plain_demo_is_plain|split; reflexivity]. Qed.
+
+Theorem run_sched_order_independent resets fl mods ps sched ordA1 ordA2 ordV1 ordV2 :
+  f_sorted_apps fl = true -> f_sorted_views fl = true ->
+  map_order ordA1 -> map_order ordA2 -> vmap_order ordV1 -> vmap_order ordV2 ->
+  run_sched resets fl ordA1 ordV1 mods ps sched = run_sched resets fl ordA2 ordV2 mods ps sched.
+Proof.
+  intros Ha Hv HA1 HA2 HV1 HV2. unfold run_sched. apply fold_left_ext. intros s [g|g]; cbn [ev_step]; [reflexivity|].
+  rewrite (pp_from_order_independent fl (mods g) ordA1 ordA2 ordV1 ordV2 _ _ Ha Hv HA1 HA2 HV1 HV2). reflexivity.
+Qed.
+
+(* ====================================================================================================================
+   Second pass: fixTypeRefScope inside the application loop (Infer.fix_ref) - the other place where one round of the loop
+   READS another application (mod.Apps[A].Types[B], in the module as the earlier rounds left it).
+
+   With both loops sorted the references come out the same under every iteration order: pp_order_independent is about the
+   whole state, p_local included.  Without the sort of the applications it is refuted by a module whose member tables come
+   out the SAME under both orders - only the reference differs:
+     application 1 mixes in application 2, which declares type 7; application 3 declares a type called 1 and a type 8 whose
+     field is typed `1.7`.  3 after 1: application 1 holds 7 by then - a full reference, left alone.  3 before 1: there is no
+     1.7 yet and 3 has a type called 1 - rewritten to the local deep reference [1, 7].
+   ==================================================================================================================== *)
+Definition ref_witness : imodule :=
+  [ {| i_name := 1; i_mem := []; i_views := []; i_mix := [2]; i_refs := [] |};
+    {| i_name := 2; i_mem := [(7, 2)]; i_views := []; i_mix := []; i_refs := [] |};
+    {| i_name := 3; i_mem := [(1, 3); (8, 3)]; i_views := []; i_mix := [];
+       i_refs := [ {| r_id := 40; r_field := Some 8; r_app := 1; r_type := 7 |} ] |} ].
+
+Example ref_witness_forward : forall sv pa,
+  p_local (pp {| f_sorted_apps := false; f_sorted_views := sv; f_per_app := pa |} (fun l => l) vid [] ref_witness) = [].
+Proof. intros [] []; reflexivity. Qed.
+Example ref_witness_backward : forall sv pa,
+  p_local (pp {| f_sorted_apps := false; f_sorted_views := sv; f_per_app := pa |} (@rev N) vid [] ref_witness) = [40].
+Proof. intros [] []; reflexivity. Qed.
+
+Theorem pp_unsorted_apps_refs_refuted : forall sv pa, exists m ordA1 ordA2 ordV, map_order ordA1 /\ map_order ordA2 /\ vmap_order ordV /\
+  let fl := {| f_sorted_apps := false; f_sorted_views := sv; f_per_app := pa |} in
+  map i_mem (p_mod (pp fl ordA1 ordV [] m)) = map i_mem (p_mod (pp fl ordA2 ordV [] m)) /\
+  p_local (pp fl ordA1 ordV [] m) <> p_local (pp fl ordA2 ordV [] m).
+Proof.
+  intros sv pa. exists ref_witness, (fun l => l), (@rev N), vid.
+  split; [exact map_order_id|]. split; [exact map_order_rev|]. split; [exact vmap_order_id|].
+  destruct sv, pa; (split; [reflexivity|vm_compute; discriminate]).
+Qed.
+
+(* the references alone: sorted applications are what makes them independent of the order (whatever the view flags) *)
+Theorem refs_order_independent fl m ordA1 ordA2 ordV1 ordV2 lets0 :
+  f_sorted_apps fl = true -> f_sorted_views fl = true ->
+  map_order ordA1 -> map_order ordA2 -> vmap_order ordV1 -> vmap_order ordV2 ->
+  p_local (pp fl ordA1 ordV1 lets0 m) = p_local (pp fl ordA2 ordV2 lets0 m).
+Proof. intros. f_equal. apply pp_order_independent; assumption. Qed.
+
+(* the order in which ONE application's references are visited (two map ranges in the source: over app.Types and over the
+   fields) does not matter: the set of rewritten references is the same for every permutation *)
+Fixpoint nsorted (l:list N) : bool :=
+  match l with
+  | [] => true
+  | x :: l' => match l' with [] => true | y :: _ => N.ltb x y && nsorted l' end
+  end.
+
+Lemma set_add_sorted x l : nsorted l = true -> nsorted (set_add x l) = true.
+Proof.
+  induction l as [|y l IH]; intros H; [reflexivity|].
+  cbn [set_add]. destruct (N.eqb x y) eqn:Exy; [exact H|].
+  destruct (N.ltb x y) eqn:Lxy.
+  - cbn [nsorted]. rewrite Lxy. exact H.
+  - assert (Hyx : N.ltb y x = true).
+    { apply N.ltb_lt. apply N.ltb_ge in Lxy. apply N.eqb_neq in Exy. apply N.le_neq. split; [exact Lxy|]. intros E. apply Exy. symmetry. exact E. }
+    destruct l as [|z l].
+    + cbn [set_add nsorted]. rewrite Hyx. reflexivity.
+    + cbn [nsorted] in H. apply andb_prop in H. destruct H as [Hyz Hs].
+      specialize (IH Hs). cbn [set_add] in *. destruct (N.eqb x z) eqn:Exz.
+      * cbn [nsorted]. rewrite Hyz. exact Hs.
+      * destruct (N.ltb x z) eqn:Lxz.
+        -- change (nsorted (y :: x :: z :: l)) with (N.ltb y x && nsorted (x :: z :: l)). rewrite Hyx. exact IH.
+        -- change (nsorted (y :: z :: set_add x l)) with (N.ltb y z && nsorted (z :: set_add x l)). rewrite Hyz. exact IH.
+Qed.
+
+Lemma set_add_mem x y l : mem_N y (set_add x l) = N.eqb y x || mem_N y l.
+Proof.
+  induction l as [|z l IH]; [cbn; rewrite orb_false_r; reflexivity|].
+  cbn [set_add]. destruct (N.eqb x z) eqn:Exz.
+  - apply N.eqb_eq in Exz. subst z. cbn [mem_N existsb]. destruct (N.eqb y x); reflexivity.
+  - destruct (N.ltb x z).
+    + reflexivity.
+    + unfold mem_N in *. cbn [existsb]. rewrite IH. destruct (N.eqb y z), (N.eqb y x); reflexivity.
+Qed.
+
+(* two sorted lists with the same members are equal *)
+Lemma nsorted_head_least x l : nsorted (x :: l) = true -> forall y, mem_N y l = true -> N.ltb x y = true.
+Proof.
+  revert x. induction l as [|z l IH]; intros x H y Hy; [discriminate|].
+  cbn [nsorted] in H. apply andb_prop in H. destruct H as [Hxz Hs].
+  unfold mem_N in Hy. cbn [existsb] in Hy. apply orb_prop in Hy. destruct Hy as [Hy|Hy].
+  - apply N.eqb_eq in Hy. subst z. exact Hxz.
+  - apply N.ltb_lt. apply N.lt_trans with z; [apply N.ltb_lt; exact Hxz|]. apply N.ltb_lt. apply (IH z Hs y). exact Hy.
+Qed.
+
+Lemma nsorted_tail x l : nsorted (x :: l) = true -> nsorted l = true.
+Proof. destruct l as [|y l]; [reflexivity|]. cbn [nsorted]. intros H. apply andb_prop in H. apply H. Qed.
+
+Lemma nsorted_ext : forall l1 l2, nsorted l1 = true -> nsorted l2 = true -> (forall y, mem_N y l1 = mem_N y l2) -> l1 = l2.
+Proof.
+  induction l1 as [|x l1 IH]; intros l2 H1 H2 He.
+  - destruct l2 as [|y l2]; [reflexivity|]. specialize (He y). unfold mem_N in He. cbn [existsb] in He. rewrite N.eqb_refl in He. discriminate.
+  - destruct l2 as [|y l2].
+    + specialize (He x). unfold mem_N in He. cbn [existsb] in He. rewrite N.eqb_refl in He. discriminate.
+    + assert (Hxy : x = y).
+      { pose proof (He x) as Hx. pose proof (He y) as Hy. unfold mem_N in Hx, Hy. cbn [existsb] in Hx, Hy.
+        rewrite N.eqb_refl in Hx, Hy. cbn [orb] in Hx. rewrite orb_true_r in Hy || idtac.
+        destruct (N.eqb x y) eqn:E; [apply N.eqb_eq; exact E|]. exfalso.
+        cbn [orb] in Hx. symmetry in Hx.
+        assert (Hy' : existsb (N.eqb y) l1 = true).
+        { rewrite N.eqb_sym in E. rewrite E in Hy. cbn [orb] in Hy. destruct (existsb (N.eqb y) l1); [reflexivity|].
+          destruct (existsb (N.eqb y) l2); discriminate. }
+        pose proof (nsorted_head_least x l1 H1 y Hy') as L1.
+        pose proof (nsorted_head_least y l2 H2 x Hx) as L2.
+        apply N.ltb_lt in L1. apply N.ltb_lt in L2. exact (N.lt_irrefl x (N.lt_trans _ _ _ L1 L2)). }
+      subst y. f_equal. apply IH; [eapply nsorted_tail; exact H1|eapply nsorted_tail; exact H2|].
+      intros z. pose proof (He z) as Hz. unfold mem_N in *. cbn [existsb] in Hz.
+      destruct (N.eqb z x) eqn:E; [|exact Hz].
+      apply N.eqb_eq in E. subst z.
+      destruct (existsb (N.eqb x) l1) eqn:M1.
+      * pose proof (nsorted_head_least x l1 H1 x M1) as L. apply N.ltb_lt in L. exfalso. exact (N.lt_irrefl _ L).
+      * destruct (existsb (N.eqb x) l2) eqn:M2; [|reflexivity].
+        pose proof (nsorted_head_least x l2 H2 x M2) as L. apply N.ltb_lt in L. exfalso. exact (N.lt_irrefl _ L).
+Qed.
+
+Definition rewrites (m:imodule) (c:iapp) (r:rref) : bool :=
+  negb (N.eqb (r_app r) (i_name c))
+  && negb (match ilookup m (r_app r) with Some a => has_mem (r_type r) (i_mem a) | None => false end)
+  && has_mem (r_app r) (i_mem c).
+
+Lemma fix_ref_sorted m c loc r : nsorted loc = true -> nsorted (fix_ref m c loc r) = true.
+Proof.
+  intros H. unfold fix_ref. destruct (mem_N (r_id r) loc); [exact H|]. destruct (N.eqb (r_app r) (i_name c)); [exact H|].
+  destruct (match ilookup m (r_app r) with Some a => has_mem (r_type r) (i_mem a) | None => false end); [exact H|].
+  destruct (has_mem (r_app r) (i_mem c)); [apply set_add_sorted; exact H|exact H].
+Qed.
+
+Lemma fix_ref_mem m c loc r y : mem_N y (fix_ref m c loc r) = mem_N y loc || (N.eqb y (r_id r) && rewrites m c r).
+Proof.
+  unfold fix_ref, rewrites. destruct (mem_N (r_id r) loc) eqn:Hm.
+  - destruct (N.eqb y (r_id r)) eqn:E; [|rewrite orb_false_r; reflexivity].
+    apply N.eqb_eq in E. subst y. rewrite Hm. reflexivity.
+  - destruct (N.eqb (r_app r) (i_name c)); cbn [negb andb]; [rewrite andb_false_r, orb_false_r; reflexivity|].
+    destruct (match ilookup m (r_app r) with Some a => has_mem (r_type r) (i_mem a) | None => false end); cbn [negb andb];
+      [rewrite andb_false_r, orb_false_r; reflexivity|].
+    destruct (has_mem (r_app r) (i_mem c)).
+    + rewrite set_add_mem, andb_true_r. apply orb_comm.
+    + rewrite andb_false_r, orb_false_r. reflexivity.
+Qed.
+
+Lemma fix_fold_sorted m c l : forall loc, nsorted loc = true -> nsorted (fold_left (fix_ref m c) l loc) = true.
+Proof. induction l as [|r l IH]; intros loc H; cbn [fold_left]; [exact H|]. apply IH. apply fix_ref_sorted. exact H. Qed.
+
+Lemma fix_fold_mem m c l y : forall loc,
+  mem_N y (fold_left (fix_ref m c) l loc) = mem_N y loc || existsb (fun r => N.eqb y (r_id r) && rewrites m c r) l.
+Proof.
+  induction l as [|r l IH]; intros loc; cbn [fold_left existsb]; [rewrite orb_false_r; reflexivity|].
+  rewrite IH, fix_ref_mem. rewrite orb_assoc. reflexivity.
+Qed.
+
+Lemma existsb_perm {A} (f:A -> bool) l l' : Permutation l l' -> existsb f l = existsb f l'.
+Proof.
+  induction 1 as [|x l l' _ IH|x y l|l l' l'' _ IH1 _ IH2]; cbn [existsb]; [reflexivity|rewrite IH; reflexivity| |congruence].
+  destruct (f x), (f y); reflexivity.
+Qed.
+
+Theorem fix_refs_visit_order_irrelevant m c l l' loc : nsorted loc = true -> Permutation l l' ->
+  fold_left (fix_ref m c) l loc = fold_left (fix_ref m c) l' loc.
+Proof.
+  intros Hs Hp. apply nsorted_ext; [apply fix_fold_sorted; exact Hs|apply fix_fold_sorted; exact Hs|].
+  intros y. rewrite !fix_fold_mem. f_equal. apply existsb_perm. exact Hp.
+Qed.
+
+(* the hypotheses are met by the run itself: p_local starts as [] and every step keeps it sorted *)
+Example fix_order_nontrivial :
+  let c := {| i_name := 3; i_mem := [(1, 3); (2, 3)]; i_views := []; i_mix := []; i_refs := [] |} in
+  let r1 := {| r_id := 41; r_field := None; r_app := 1; r_type := 7 |} in
+  let r2 := {| r_id := 40; r_field := None; r_app := 2; r_type := 7 |} in
+  nsorted [] = true /\ Permutation [r1; r2] [r2; r1] /\ fold_left (fix_ref [c] c) [r1; r2] [] = [40; 41].
+Proof. cbn zeta. split; [reflexivity|]. split; [apply perm_swap|reflexivity]. Qed.
